@@ -517,6 +517,88 @@ QqSteps: !protocol
 """
 
 
+# every position that can hold a type refers to a definition that is declared *after* its user and is referenced from that
+# one position only (so nothing else orders it): the emission order of the generated code must still put it first
+USE_BEFORE_DECLARATION_MODEL = """POrder: !protocol
+  sequence:
+    a: UsesAll
+    step: OnlyStep
+    items: !stream {items: OnlyItem}
+    en: EnumWithAliasBase
+    computed: WithComputed
+    viaGenericAlias: GAlias<OnlyGArg>
+UsesAll: !record
+  fields:
+    direct: OnlyDirect
+    optional: OnlyOptional?
+    vector: OnlyVector*
+    fixedVector: OnlyFixed*3
+    mapKey: OnlyKey->int
+    mapKeyLong: !map {keys: OnlyKeyLong, values: string}
+    mapKeyOfRecords: OnlyKeyRec->Payload
+    mapValue: string->OnlyValue
+    arrayElem: OnlyArr[2]
+    dynArrayElem: OnlyDyn[]
+    rankArrayElem: OnlyRank[,]
+    unionCase: [int, OnlyCase]
+    nullableUnionCase: [null, string, OnlyNCase]
+    genericArg: Holder<OnlyArg>
+    nestedArg: Holder<Holder<OnlyNested>>
+    throughAlias: AliasOfOnly
+    recordTarget: OnlyRec
+    enumTarget: OnlyEnum
+    vectorOfRecords: OnlyRecV*
+EnumWithAliasBase: !enum
+  base: OnlyBase
+  values: [a, b]
+Holder<T>: !record
+  fields:
+    v: T
+GAlias<T>: T->Holder<T>
+AliasOfOnly: OnlyTarget*
+WithComputed: !record
+  fields:
+    x: OnlyComputed
+    m: OnlyCKey->int
+  computedFields:
+    y: x + 1
+    n: size(m)
+Payload: !record
+  fields:
+    p: int
+OnlyStep: uint16
+OnlyItem: float
+OnlyDirect: int
+OnlyOptional: string
+OnlyVector: double
+OnlyFixed: uint8
+OnlyKey: string
+OnlyKeyLong: uint32
+OnlyKeyRec: long
+OnlyValue: float
+OnlyArr: int16
+OnlyDyn: float
+OnlyRank: double
+OnlyCase: string
+OnlyNCase: uint64
+OnlyArg: int8
+OnlyNested: string
+OnlyTarget: ulong
+OnlyBase: uint8
+OnlyComputed: int
+OnlyCKey: string
+OnlyGArg: string
+OnlyRec: !record
+  fields:
+    q: int
+OnlyRecV: !record
+  fields:
+    q: string
+OnlyEnum: !enum
+  values: [one, two]
+"""
+
+
 def known_finding_witnesses(sc):
     """minimal packages for the open findings of this property: they run on every tier"""
     P = lambda n: ("prim", n)
@@ -539,6 +621,8 @@ def known_finding_witnesses(sc):
     pkg.defs.append({"kind": "record", "name": "G", "tparams": ["T"], "fields": [("a", ("arr", ("arr", ("opt", ("tparam", "T")), ("fixed", [2], None)), ("rank", 1, None)))]})
     pkg.defs.append({"kind": "protocol", "name": "P", "steps": [("a", ("vec", ("named", "G", [P("int32")]), None), False)]})
     yield Job("witness:derived-names", sc.path("kf-derived"), model_text=DERIVED_NAMES_MODEL, manifest_extra=OPTION_SETS[2][1], compile_cpp=True, ndjson=True, namespace="Kf5")
+    yield Job("cross:use-before-declaration", sc.path("use-before-decl"), model_text=USE_BEFORE_DECLARATION_MODEL, manifest_extra=OPTION_SETS[2][1], compile_cpp=True, ndjson=True,
+              namespace="OrderNs", exercise=True)
     yield Job("witness:type-parameter-only-in-array", sc.path("kf-array"), pkg=pkg, manifest_extra=OPTION_SETS[4][1], namespace="Kf3")
 
 
